@@ -6,6 +6,7 @@ import (
 	"go/types"
 	"regexp"
 	"sort"
+	"strconv"
 	"strings"
 
 	"ddcheck/core"
@@ -576,9 +577,14 @@ func checkPrefixTable(p *core.Program, r *core.Report, rule string) {
 		r.Undecided(rule, "addObjectType", err.Error())
 		return
 	}
-	want := map[string]string{"opengraph.OG": `$2 == ""`, "opengraph.Profile": `strings.TrimPrefix($2,"/") == "profile"`, "opengraph.Article": `strings.TrimPrefix($2,"/") == "article"`}
+	// which object type a table key stands for; a key may be a constant or the answer of a lookup
+	// in a fixed table of object types (rendered by content: map‹"article":2,"profile":1›[X])
+	objOf := map[string]string{"opengraph.OG": "", "opengraph.Profile": "profile", "opengraph.Article": "article", "0": "", "1": "profile", "2": "article"}
+	reLookup := regexp.MustCompile(`^(map‹.*›)\[(.*)\](#0)?$`)
+	rePair := regexp.MustCompile(`"((?:[^"\\]|\\.)*)":([\w.]+)`)
 	var bad []string
 	n := 0
+	covered := map[string]bool{}
 	for _, pa := range paths {
 		for _, ev := range pathEvents(pa) {
 			if !strings.HasPrefix(ev, "set ") {
@@ -586,20 +592,41 @@ func checkPrefixTable(p *core.Program, r *core.Report, rule string) {
 			}
 			n++
 			k := strings.TrimPrefix(ev, "set ")
-			cond, known := want[k]
 			ok := false
-			for _, l := range pa.Lits {
-				if known && l.Atom == cond && l.Val {
-					ok = true
+			if obj, known := objOf[k]; known {
+				covered[obj] = true
+				// a constant key: the path holds a comparison of the (possibly slash-trimmed) object
+				// type parameter with that key's object type
+				for _, l := range pa.Lits {
+					if l.Val && strings.HasSuffix(l.Atom, ` == `+strconv.Quote(obj)) && strings.Contains(l.Atom, "$2") {
+						ok = true
+					}
 				}
+			} else if m := reLookup.FindStringSubmatch(k); m != nil && strings.Contains(m[2], "$2") {
+				// a looked-up key: the table maps every object type to its own key, and the entry was found
+				ok = true
+				for _, pr := range rePair.FindAllStringSubmatch(m[1], -1) {
+					if obj, known := objOf[pr[2]]; !known || obj != pr[1] {
+						ok = false
+					} else {
+						covered[obj] = true
+					}
+				}
+				found := false
+				for _, l := range pa.Lits {
+					if l.Val && l.Atom == "in("+m[1]+","+m[2]+")" {
+						found = true
+					}
+				}
+				ok = ok && found
 			}
 			if !ok {
-				bad = append(bad, shortVal(pa.String()))
+				bad = append(bad, shortVal(pa.String())+" ["+ev+"]")
 			}
 		}
 	}
-	r.Add(rule, "a declared prefix is stored only under the entry of its own namespace (og for the bare namespace, profile, article)", p.Pos(fn.Pos()), n >= 3 && len(bad) == 0,
-		fmt.Sprintf("%d table writes on %d decision paths, %d not conditioned on their own object type", n, len(paths), len(bad)), bad...)
+	r.Add(rule, "a declared prefix is stored only under the entry of its own namespace (og for the bare namespace, profile, article)", p.Pos(fn.Pos()), covered[""] && covered["profile"] && covered["article"] && len(bad) == 0,
+		fmt.Sprintf("%d table writes on %d decision paths, %d not conditioned on their own object type; namespaces with an entry: %v", n, len(paths), len(bad), sortedKeys(covered)), bad...)
 }
 
 // checkOGTypeKnownFirst (C14-P10) and checkOGNameMatch (C14-P11), both on parseMetaTags with
@@ -622,10 +649,24 @@ func checkOGMetaLoop(p *core.Program, r *core.Report) {
 	c := core.NewCanon(p)
 	loops, _ := core.NaturalLoops(fn)
 	var typeCalls []ssa.Instruction
+	nTypeParsers := 0
 	for _, call := range core.Calls(fn, func(ci ssa.CallInstruction) bool {
-		return core.IsCallTo(ci, "(*mod/internal/markup/opengraph.ProfilePropParser).Parse", "(*mod/internal/markup/opengraph.ArticlePropParser).Parse")
+		if core.IsCallTo(ci, "(*mod/internal/markup/opengraph.ProfilePropParser).Parse", "(*mod/internal/markup/opengraph.ArticlePropParser).Parse") {
+			return true
+		}
+		// the parsers kept in a table and called through their interface: every implementation
+		// may run here, the two type-dependent ones among them
+		if cc := ci.Common(); cc.IsInvoke() && cc.Method.Name() == "Parse" && cc.Method.Pkg() != nil && strings.HasSuffix(cc.Method.Pkg().Path(), "/markup/opengraph") {
+			return true
+		}
+		return false
 	}) {
 		typeCalls = append(typeCalls, call.(ssa.Instruction))
+		if call.Common().IsInvoke() {
+			nTypeParsers += 2
+		} else {
+			nTypeParsers++
+		}
 	}
 	var pre []*ssa.MapUpdate
 	for _, in := range instrsOf(fn) {
@@ -654,7 +695,7 @@ func checkOGMetaLoop(p *core.Program, r *core.Report) {
 			}
 		}
 	}
-	r.Add("P10", "og:type is in the property table before the first type-dependent parser runs", p.Pos(fn.Pos()), len(typeCalls) >= 2 && len(pre) >= 1,
+	r.Add("P10", "og:type is in the property table before the first type-dependent parser runs", p.Pos(fn.Pos()), nTypeParsers >= 2 && len(pre) >= 1,
 		fmt.Sprintf("%d calls of the profile/article parsers; %d stores of a content attribute under \"type\" in a loop that is complete before them", len(typeCalls), len(pre)))
 
 	// P11
